@@ -80,9 +80,9 @@ End Ring.
 Definition c_end (ns : Z) (c : chunk) : Z := c_mem c + c_nodes c * ns.
 Definition chunk_ok (c : chunk) : Prop :=
   0 <= c_nodes c /\ NoDup (c_free c) /\ Forall (fun i => 0 <= i < c_nodes c) (c_free c).
-(* chunks in address order, node memories pairwise disjoint, all above lo *)
+(* chunks in address order, each chunk (header and nodes) behind the nodes of the one before, all above lo *)
 Fixpoint sep (ns lo : Z) (cs : list chunk) : Prop :=
-  match cs with [] => True | c :: tl => lo <= c_mem c /\ sep ns (c_end ns c) tl end.
+  match cs with [] => True | c :: tl => lo <= c_mem c - sm_cmo /\ sep ns (c_end ns c) tl end.
 Definition chunk_addrs (ns : Z) (c : chunk) : list Z := map (fun i => c_mem c + i * ns) (c_free c).
 Definition free_addrs (ns : Z) (cs : list chunk) : list Z := flat_map (chunk_addrs ns) cs.
 
@@ -104,8 +104,25 @@ Proof.
   intros Hns. revert lo. induction cs as [|c tl IH]; intros lo Hok Hsep Hin; [destruct Hin|].
   cbn [free_addrs flat_map] in Hin. apply in_app_or in Hin. inversion Hok as [|? ? Hc Htl]; subst. destruct Hsep as [H1 H2].
   destruct Hin as [Hin|Hin].
-  - apply (chunk_addrs_range ns c a Hns Hc) in Hin. lia.
-  - specialize (IH (c_end ns c) Htl H2 Hin). destruct Hc as (Hn & _). unfold c_end in IH. nia.
+  - apply (chunk_addrs_range ns c a Hns Hc) in Hin. unfold sm_cmo in H1. lia.
+  - specialize (IH (c_end ns c) Htl H2 Hin). unfold sm_cmo in H1. destruct Hc as (Hn & _). unfold c_end in IH. nia.
+Qed.
+
+Lemma sep_above ns : forall tl lo, Forall chunk_ok tl -> 0 < ns -> sep ns lo tl -> forall y, In y tl -> lo <= c_mem y - sm_cmo.
+Proof.
+  induction tl as [|z tl IH]; intros lo Hok Hns Hs y Hy; [destruct Hy|].
+  destruct Hs as [T1 T2]. inversion Hok as [|? ? Hz Htl]; subst. destruct Hy as [->|Hy]; [exact T1|].
+  specialize (IH _ Htl Hns T2 y Hy). destruct Hz as (Hz & _). unfold c_end in IH. unfold sm_cmo in *. nia.
+Qed.
+
+Lemma sep_pairwise ns : 0 < ns -> forall cs lo, Forall chunk_ok cs -> sep ns lo cs -> forall c d, In c cs -> In d cs ->
+  c = d \/ c_end ns c <= c_mem d \/ c_end ns d <= c_mem c.
+Proof.
+  intros Hns. induction cs as [|x tl IH]; intros lo Hok Hs c d Hc Hd; [destruct Hc|].
+  inversion Hok as [|? ? Hx Htl]; subst. destruct Hs as [S1 S2].
+  destruct Hc as [->|Hc]; destruct Hd as [->|Hd]; [left; reflexivity| | |eapply IH; eauto].
+  - right. left. pose proof (sep_above ns tl _ Htl Hns S2 d Hd). unfold sm_cmo in *. lia.
+  - right. right. pose proof (sep_above ns tl _ Htl Hns S2 c Hc). unfold sm_cmo in *. lia.
 Qed.
 
 Lemma chunk_addrs_nodup ns c : 0 < ns -> chunk_ok c -> NoDup (chunk_addrs ns c).
@@ -240,18 +257,9 @@ Proof.
   (* d is the chunk c: chunks are disjoint *)
   assert (Hdok : chunk_ok d). { rewrite Forall_forall in Hok. apply Hok. rewrite E1. apply in_or_app. right. left. reflexivity. }
   assert (Hcd : c = d).
-  { clear - Hin Hfrom Hfd E1 Hsep Hns Hok Hd.
-    assert (G : forall cs lo, Forall chunk_ok cs -> sep (sm_ns l) lo cs -> forall a b, In a cs -> In b cs -> c_from (sm_ns l) a p = true -> c_from (sm_ns l) b p = true -> a = b).
-    { induction cs as [|x tl IH]; intros lo0 Hk Hs a b Ha Hb Fa Fb; [destruct Ha|].
-      inversion Hk as [|? ? Hx Htl]; subst. destruct Hs as [S1 S2].
-      assert (Above : forall y, In y tl -> c_end (sm_ns l) x <= c_mem y).
-      { clear - S2 Htl Hns. revert S2. generalize (c_end (sm_ns l) x). induction tl as [|z tl IHt]; intros e S2 y Hy; [destruct Hy|].
-        destruct S2 as [T1 T2]. inversion Htl as [|? ? Hz Htl']; subst. destruct Hy as [->|Hy]; [exact T1|].
-        specialize (IHt Htl' _ T2 y Hy). destruct Hz as (Hz & _). unfold c_end in IHt. nia. }
-      unfold c_from in *. destruct Ha as [->|Ha]; destruct Hb as [->|Hb]; [reflexivity| | |eapply IH; eauto].
-      - specialize (Above b Hb). unfold c_end in Above. lia.
-      - specialize (Above a Ha). unfold c_end in Above. lia. }
-    eapply G; eauto. eapply nth_error_In; eauto. }
+  { assert (Hdin : In d (sm_chunks l)) by (eapply nth_error_In; eauto).
+    destruct (sep_pairwise (sm_ns l) Hns _ lo Hok Hsep c d Hin Hdin) as [E|[E|E]]; [exact E| |]; exfalso;
+      unfold c_from, c_end in *; apply andb_prop in Hfrom; apply andb_prop in Hfd; lia. }
   subst d.
   assert (Hp : p = c_mem c + idx * sm_ns l).
   { unfold idx. pose proof (Z.div_mod (p - c_mem c) (sm_ns l)) as Hdm. rewrite Hmod in Hdm. lia. }
@@ -309,7 +317,7 @@ Proof.
   - repeat split; constructor.
   - destruct (IH (mem + stride)) as (I1 & I2 & I3 & I4). unfold sm_cmo, sm_cmax in *.
     split; [|split; [|split]].
-    + cbn [sep c_mem]. split; [lia|]. eapply sep_weaken; [|exact I1]. unfold c_end; cbn [c_mem c_nodes]. lia.
+    + cbn [sep c_mem]. unfold sm_cmo. split; [lia|]. eapply sep_weaken; [|exact I1]. unfold c_end; cbn [c_mem c_nodes]. lia.
     + constructor; [unfold c_end; cbn [c_mem c_nodes]; nia|]. eapply Forall_impl; [|exact I2]. cbn beta. intros c Hc. nia.
     + constructor; [|exact I3]. change 255%nat with (Z.to_nat 255). apply iota_chunk_ok. lia.
     + cbn [free_addrs flat_map]. rewrite app_length. fold (free_addrs ns (full_chunks k (mem + stride) stride)). rewrite I4.
@@ -371,7 +379,7 @@ Proof.
     destruct (Hdis c (or_introl eq_refl)) as [D|D]; destruct (Z.ltb_spec (mem + sm_cmo) (c_mem c)) as [L|L]; unfold sm_cmo in *.
     + lia.
     + cbn [sep]. split; [exact S1|]. apply IH; [exact Htl|exact S2|exact D|intros x Hx; apply Hdis; right; exact Hx].
-    + eapply sep_app; [eapply sep_weaken; [exact Hlo|exact Hnew]|exact Hend|lia|]. cbn [sep]. split; [lia|exact S2].
+    + eapply sep_app; [eapply sep_weaken; [exact Hlo|exact Hnew]|exact Hend|lia|]. cbn [sep]. unfold sm_cmo. split; [lia|exact S2].
     + lia.
 Qed.
 
@@ -411,23 +419,6 @@ Qed.
 
 Definition in_grid (ns : Z) (cs : list chunk) (a : Z) : Prop :=
   exists c, In c cs /\ c_mem c <= a /\ a + ns <= c_end ns c /\ (a - c_mem c) mod ns = 0.
-
-Lemma sep_above ns : forall tl lo, Forall chunk_ok tl -> 0 < ns -> sep ns lo tl -> forall y, In y tl -> lo <= c_mem y.
-Proof.
-  induction tl as [|z tl IH]; intros lo Hok Hns Hs y Hy; [destruct Hy|].
-  destruct Hs as [T1 T2]. inversion Hok as [|? ? Hz Htl]; subst. destruct Hy as [->|Hy]; [exact T1|].
-  specialize (IH _ Htl Hns T2 y Hy). destruct Hz as (Hz & _). unfold c_end in IH. nia.
-Qed.
-
-Lemma sep_pairwise ns : 0 < ns -> forall cs lo, Forall chunk_ok cs -> sep ns lo cs -> forall c d, In c cs -> In d cs ->
-  c = d \/ c_end ns c <= c_mem d \/ c_end ns d <= c_mem c.
-Proof.
-  intros Hns. induction cs as [|x tl IH]; intros lo Hok Hs c d Hc Hd; [destruct Hc|].
-  inversion Hok as [|? ? Hx Htl]; subst. destruct Hs as [S1 S2].
-  destruct Hc as [->|Hc]; destruct Hd as [->|Hd]; [left; reflexivity| | |eapply IH; eauto].
-  - right. left. eapply sep_above; eauto.
-  - right. right. eapply sep_above; eauto.
-Qed.
 
 (* two different nodes of the grid do not overlap *)
 Lemma grid_nodes_disjoint ns cs lo a b : 0 < ns -> Forall chunk_ok cs -> sep ns lo cs -> in_grid ns cs a -> in_grid ns cs b -> a <> b ->
@@ -590,4 +581,203 @@ Proof.
     assert (Hpa : p <> a).
     { intros ->. destruct Hg' as (_ & Hnd' & _). rewrite Ep in Hnd'. cbn [app] in Hnd'. inversion Hnd' as [|? ? Hni _]; subst. apply Hni. apply in_or_app. left. exact Ha. }
     apply (Pair g' Hg' En'); [rewrite Ep; left; reflexivity|rewrite Ep; right; exact Ha|exact Hpa].
+Qed.
+
+(* ---------- deallocate's chunk search ---------- *)
+Section NodeSearch.
+Variable l : smlist.
+Variable p : Z.
+Let n := ring_size l.
+Definition radd (a k : nat) : nat := if Nat.ltb (a + k) n then (a + k)%nat else (a + k - n)%nat.
+
+Lemma ring_next_radd a : (a < n)%nat -> ring_next l a = radd a 1.
+Proof. intros H. unfold ring_next, radd. fold n. destruct (Nat.eqb_spec (S a) n); destruct (Nat.ltb_spec (a + 1) n); lia. Qed.
+Lemma ring_prev_radd a d : (a < n)%nat -> (1 <= d < n)%nat -> ring_prev l (radd a d) = radd a (d - 1).
+Proof.
+  intros Ha Hd. unfold ring_prev, radd. fold n. destruct (Nat.ltb_spec (a + d) n); destruct (Nat.ltb_spec (a + (d - 1)) n).
+  - destruct (a + d)%nat eqn:E; lia.
+  - lia.
+  - destruct (a + d - n)%nat eqn:E; lia.
+  - destruct (a + d - n)%nat eqn:E; lia.
+Qed.
+
+(* the walk over the arc first, first+1, ..., first+d (round the ring) ends within d/2+1 rounds; it finds a chunk holding p
+   if the arc has one, and says so if it has none *)
+Lemma walk_in_spec fuel : forall first d, (first < n)%nat -> (d < n)%nat -> (d < 2 * fuel)%nat ->
+  ((forall k, (k <= d)%nat -> from_pos l p (radd first k) = false) -> walk_in fuel l p first (radd first d) = FNotFound) /\
+  ((exists k, (k <= d)%nat /\ from_pos l p (radd first k) = true) -> exists q, walk_in fuel l p first (radd first d) = FFound q /\ from_pos l p q = true).
+Proof.
+  induction fuel as [|fuel IH]; intros first d Hf Hd Hfuel; [lia|].
+  assert (R0 : radd first 0 = first) by (unfold radd; destruct (Nat.ltb_spec (first + 0) n); lia).
+  cbn [walk_in]. destruct (from_pos l p first) eqn:F1.
+  { split; [intros Hall; specialize (Hall 0%nat ltac:(lia)); rewrite R0 in Hall; congruence|intros _; exists first; auto]. }
+  destruct (from_pos l p (radd first d)) eqn:F2.
+  { split; [intros Hall; specialize (Hall d ltac:(lia)); congruence|intros _; exists (radd first d); auto]. }
+  rewrite (ring_next_radd first Hf).
+  destruct (Nat.eqb first (radd first d) || Nat.eqb (radd first 1) (radd first d)) eqn:Hstop.
+  - (* d = 0 or d = 1 *)
+    assert (Hd1 : (d <= 1)%nat).
+    { apply orb_prop in Hstop. unfold radd in Hstop. destruct Hstop as [E|E]; apply Nat.eqb_eq in E;
+        destruct (Nat.ltb_spec (first + d) n); destruct (Nat.ltb_spec (first + 1) n); lia. }
+    split; [reflexivity|]. intros [k [Hk Hr]]. exfalso. assert (k = 0 \/ k = d)%nat as [->| ->] by lia; [rewrite R0 in Hr|]; congruence.
+  - assert (Hd2 : (2 <= d)%nat).
+    { apply orb_false_elim in Hstop. destruct Hstop as [E1 E2]. apply Nat.eqb_neq in E1. apply Nat.eqb_neq in E2. unfold radd in E1, E2.
+      destruct (Nat.ltb_spec (first + d) n); destruct (Nat.ltb_spec (first + 1) n); lia. }
+    rewrite (ring_prev_radd first d Hf ltac:(lia)).
+    assert (Hf' : (radd first 1 < n)%nat) by (unfold radd; destruct (Nat.ltb_spec (first + 1) n); lia).
+    assert (Hshift : forall k, (k <= d - 2)%nat -> radd (radd first 1) k = radd first (k + 1)).
+    { intros k Hk. unfold radd. destruct (Nat.ltb_spec (first + 1) n); destruct (Nat.ltb_spec (first + (k + 1)) n);
+        try destruct (Nat.ltb_spec (first + 1 + k) n); try destruct (Nat.ltb_spec (first + 1 - n + k) n); lia. }
+    replace (radd first (d - 1)) with (radd (radd first 1) (d - 2)) by (rewrite Hshift by lia; f_equal; lia).
+    destruct (IH (radd first 1) (d - 2)%nat Hf' ltac:(lia) ltac:(lia)) as [I1 I2]. split.
+    + intros Hall. apply I1. intros k Hk. rewrite Hshift by lia. apply Hall. lia.
+    + intros [k [Hk Hr]]. apply I2. assert (k <> 0)%nat by (intros ->; rewrite R0 in Hr; congruence).
+      assert (k <> d) by (intros ->; congruence). exists (k - 1)%nat. split; [lia|]. rewrite Hshift by lia. replace (k - 1 + 1)%nat with k by lia. exact Hr.
+Qed.
+End NodeSearch.
+
+Lemma radd_reach l a b : (a < ring_size l)%nat -> (b < ring_size l)%nat -> exists d, (d < ring_size l)%nat /\ radd l a d = b.
+Proof.
+  intros Ha Hb. exists (if Nat.leb a b then (b - a)%nat else (b + ring_size l - a)%nat). unfold radd.
+  destruct (Nat.leb_spec a b).
+  - split; [lia|]. destruct (Nat.ltb_spec (a + (b - a)) (ring_size l)); lia.
+  - split; [lia|]. destruct (Nat.ltb_spec (a + (b + ring_size l - a)) (ring_size l)); lia.
+Qed.
+
+Lemma sep_nth ns : 0 < ns -> forall cs lo, Forall chunk_ok cs -> sep ns lo cs -> forall i j c d, (i < j)%nat ->
+  nth_error cs i = Some c -> nth_error cs j = Some d -> c_end ns c <= c_mem d - sm_cmo.
+Proof.
+  intros Hns. induction cs as [|x tl IH]; intros lo Hok Hs i j c d Hij Hi Hj; [destruct i; discriminate|].
+  inversion Hok as [|? ? Hx Htl]; subst. destruct Hs as [S1 S2]. destruct j as [|j]; [lia|]. cbn [nth_error] in Hj.
+  destruct i as [|i]; cbn [nth_error] in Hi.
+  - inversion Hi; subst. apply (sep_above ns tl _ Htl Hns S2 d). eapply nth_error_In; eauto.
+  - apply (IH _ Htl S2 i j c d); [lia|exact Hi|exact Hj].
+Qed.
+
+Lemma from_pos_unique l p q j c : SmInv l -> from_pos l p q = true -> nth_error (sm_chunks l) j = Some c -> c_from (sm_ns l) c p = true -> q = S j.
+Proof.
+  intros (Hns & Hok & [lo Hsep] & _) Hq Hj Hc. unfold from_pos in Hq. destruct q as [|i]; [discriminate|].
+  destruct (nth_error (sm_chunks l) i) as [e|] eqn:Hi; [|discriminate]. f_equal.
+  unfold c_from in *. apply andb_prop in Hq. apply andb_prop in Hc.
+  assert (He : chunk_ok e) by (rewrite Forall_forall in Hok; apply Hok; eapply nth_error_In; eauto).
+  assert (Hcc : chunk_ok c) by (rewrite Forall_forall in Hok; apply Hok; eapply nth_error_In; eauto).
+  destruct (Nat.lt_trichotomy i j) as [L|[E|L]]; [|exact E|]; exfalso.
+  - pose proof (sep_nth _ Hns _ _ Hok Hsep i j e c L Hi Hj). unfold c_end, sm_cmo in *. lia.
+  - pose proof (sep_nth _ Hns _ _ Hok Hsep j i c e L Hj Hi). unfold c_end, sm_cmo in *. lia.
+Qed.
+
+Theorem find_node_spec base l p : SmInv l ->
+  (forall j c, nth_error (sm_chunks l) j = Some c -> c_from (sm_ns l) c p = true ->
+               (forall e, In e (sm_chunks l) -> c_from (sm_ns l) e base = false) -> sm_find_node base l p = FFound (S j)) /\
+  ((forall c, In c (sm_chunks l) -> c_from (sm_ns l) c p = false) ->
+   sm_find_node base l p = if pos_addr base l (sm_dc l) =? p then FNoHalf else FNotFound).
+Proof.
+  intros Hinv. pose proof Hinv as (Hns & Hok & [lo Hsep] & Hac & Hdc). set (n := ring_size l) in *. split.
+  - intros j c Hj Hc Hbase. unfold sm_find_node.
+    destruct (from_pos l p (sm_dc l)) eqn:F1; [f_equal; eapply from_pos_unique; eauto|].
+    destruct (from_pos l p (sm_ac l)) eqn:F2; [f_equal; eapply from_pos_unique; eauto|].
+    assert (Hjn : (S j < n)%nat). { assert (j < length (sm_chunks l))%nat by (apply nth_error_Some; congruence). unfold n, ring_size. lia. }
+    assert (Hpos : from_pos l p (S j) = true) by (unfold from_pos; rewrite Hj; exact Hc).
+    assert (Hfound : forall first d k, (first < n)%nat -> (d < n)%nat -> (k <= d)%nat -> radd l first k = S j ->
+                     walk_in n l p first (radd l first d) = FFound (S j)).
+    { intros first d k Hf Hd Hk Ek. destruct (walk_in_spec l p n first d Hf Hd ltac:(fold n; lia)) as [_ W].
+      destruct W as [q [W1 W2]]; [exists k; split; [exact Hk|rewrite Ek; exact Hpos]|]. rewrite W1. f_equal. eapply from_pos_unique; eauto. }
+    assert (Hcin : In c (sm_chunks l)) by (eapply nth_error_In; eauto).
+    assert (Hcr : c_mem c <= p < c_end (sm_ns l) c). { unfold c_from in Hc. apply andb_prop in Hc. unfold c_end. lia. }
+    assert (Hlen : length (sm_chunks l) = (n - 1)%nat) by (unfold n, ring_size; lia).
+    destruct (sm_dc l) as [|k] eqn:Edc.
+    + (* the cursor is the proxy: either half is the whole list *)
+      cbn [pos_addr]. assert (Hb : c_from (sm_ns l) c base = false) by (apply Hbase; exact Hcin).
+      assert (Hnb : base <> p).
+      { intros ->. congruence. }
+      assert (R1 : ring_next l 0 = 1%nat) by (unfold ring_next; fold n; destruct (Nat.eqb_spec 1 n); lia).
+      assert (R2 : ring_prev l 0 = (n - 1)%nat) by reflexivity.
+      assert (E : radd l 1 (n - 2) = (n - 1)%nat) by (unfold radd; fold n; destruct (Nat.ltb_spec (1 + (n - 2)) n); lia).
+      assert (Ej : radd l 1 j = S j) by (unfold radd; fold n; destruct (Nat.ltb_spec (1 + j) n); lia).
+      rewrite R1, R2. rewrite <- E.
+      destruct (Z.ltb_spec base p); [apply (Hfound 1%nat (n - 2)%nat j); lia|].
+      destruct (Z.ltb_spec p base); [apply (Hfound 1%nat (n - 2)%nat j); lia|lia].
+    + cbn [pos_addr]. destruct (nth_error (sm_chunks l) k) as [e|] eqn:Hk.
+      2:{ exfalso. apply nth_error_None in Hk. lia. }
+      assert (Hjk : j <> k). { intros ->. unfold from_pos in F1. rewrite Hk in F1. rewrite Hj in Hk. inversion Hk; subst. congruence. }
+      assert (Hee : chunk_ok e) by (rewrite Forall_forall in Hok; apply Hok; eapply nth_error_In; eauto).
+      destruct Hee as (Hen & _).
+      destruct (Nat.lt_trichotomy j k) as [L|[E|L]]; [|contradiction|].
+      * (* the node's chunk lies before the cursor *)
+        pose proof (sep_nth _ Hns _ _ Hok Hsep j k c e L Hj Hk) as Hs.
+        destruct (Z.ltb_spec (c_mem e - sm_cmo) p); [unfold sm_cmo in *; lia|]. destruct (Z.ltb_spec p (c_mem e - sm_cmo)); [|unfold sm_cmo in *; lia].
+        assert (R1 : ring_next l 0 = 1%nat) by (unfold ring_next; fold n; destruct (Nat.eqb_spec 1 n); lia).
+        assert (R2 : ring_prev l (S k) = k) by reflexivity. rewrite R1, R2.
+        assert (E : radd l 1 (k - 1) = k) by (unfold radd; fold n; destruct (Nat.ltb_spec (1 + (k - 1)) n); lia). rewrite <- E.
+        apply (Hfound 1%nat (k - 1)%nat j); [lia|lia|lia|]. unfold radd; fold n; destruct (Nat.ltb_spec (1 + j) n); lia.
+      * pose proof (sep_nth _ Hns _ _ Hok Hsep k j e c L Hk Hj) as Hs. unfold c_end in Hs.
+        destruct (Z.ltb_spec (c_mem e - sm_cmo) p); [|unfold sm_cmo in *; nia].
+        assert (R1 : ring_next l (S k) = S (S k)) by (unfold ring_next; fold n; destruct (Nat.eqb_spec (S (S k)) n); lia).
+        assert (R2 : ring_prev l 0 = (n - 1)%nat) by reflexivity. rewrite R1, R2.
+        assert (E : radd l (S (S k)) (n - 1 - S (S k)) = (n - 1)%nat) by (unfold radd; fold n; destruct (Nat.ltb_spec (S (S k) + (n - 1 - S (S k))) n); lia). rewrite <- E.
+        apply (Hfound (S (S k)) (n - 1 - S (S k))%nat (j - S k)%nat); [lia|lia|lia|]. unfold radd; fold n; destruct (Nat.ltb_spec (S (S k) + (j - S k)) n); lia.
+  - intros Hnone. unfold sm_find_node.
+    assert (Hall : forall q, from_pos l p q = false).
+    { intros [|i]; [reflexivity|]. unfold from_pos. destruct (nth_error (sm_chunks l) i) as [c|] eqn:E; [|reflexivity]. apply Hnone. eapply nth_error_In; eauto. }
+    rewrite !Hall.
+    assert (Hw : forall first last, (first < n)%nat -> (last < n)%nat -> walk_in n l p first last = FNotFound).
+    { intros first last Hf Hl. destruct (radd_reach l first last Hf Hl) as [d [Hd Ed]]. rewrite <- Ed.
+      apply (walk_in_spec l p n first d Hf Hd ltac:(fold n; lia)). intros k _. apply Hall. }
+    assert (Hnext : forall a, (a < n)%nat -> (ring_next l a < n)%nat) by (intros a Ha; unfold ring_next; fold n; destruct (Nat.eqb_spec (S a) n); lia).
+    assert (Hprev : forall a, (a < n)%nat -> (ring_prev l a < n)%nat) by (intros a Ha; unfold ring_prev; fold n; destruct a; lia).
+    destruct (Z.ltb_spec (pos_addr base l (sm_dc l)) p); [destruct (Z.eqb_spec (pos_addr base l (sm_dc l)) p); [lia|]; apply Hw; [apply Hnext; exact Hdc|apply Hprev; lia]|].
+    destruct (Z.ltb_spec p (pos_addr base l (sm_dc l))); [destruct (Z.eqb_spec (pos_addr base l (sm_dc l)) p); [lia|]; apply Hw; [apply Hnext; lia|apply Hprev; exact Hdc]|].
+    destruct (Z.eqb_spec (pos_addr base l (sm_dc l)) p); [reflexivity|lia].
+Qed.
+
+(* ---------- deallocate as the code runs it ---------- *)
+Lemma chunk_index_unique l p j c : SmInv l -> nth_error (sm_chunks l) j = Some c -> c_from (sm_ns l) c p = true -> chunk_index (sm_ns l) (sm_chunks l) p = Some j.
+Proof.
+  intros Hinv Hj Hc. destruct (chunk_index_complete (sm_ns l) (sm_chunks l) p c ltac:(eapply nth_error_In; eauto) Hc) as [i Hi].
+  destruct (chunk_index_nth _ _ _ _ Hi) as [d [Hd Hfd]].
+  assert (E : S i = S j) by (eapply from_pos_unique; eauto; unfold from_pos; rewrite Hd; exact Hfd). inversion E; subst. exact Hi.
+Qed.
+
+(* a valid release goes through whatever the configuration, and does what sm_dealloc says *)
+Theorem sm_deallocate_valid base pc dbl l p c : SmInv l -> In c (sm_chunks l) -> c_from (sm_ns l) c p = true -> (p - c_mem c) mod sm_ns l = 0 ->
+  ~ In p (free_addrs (sm_ns l) (sm_chunks l)) -> (forall e, In e (sm_chunks l) -> c_from (sm_ns l) e base = false) ->
+  exists l', sm_deallocate base pc dbl l p = MOk l' /\ sm_dealloc l p = Some l'.
+Proof.
+  intros Hinv Hin Hfrom Hmod Hnot Hbase. apply In_nth_error in Hin. destruct Hin as [j Hj].
+  destruct (find_node_spec base l p Hinv) as [F _]. unfold sm_deallocate. rewrite (F j c Hj Hfrom Hbase). rewrite Hj.
+  unfold sm_dealloc. rewrite (chunk_index_unique l p j c Hinv Hj Hfrom), Hj. rewrite Hmod. cbn [Z.eqb negb]. rewrite andb_false_r. cbn [andb].
+  assert (Hex : existsb (Z.eqb ((p - c_mem c) / sm_ns l)) (c_free c) = false).
+  { destruct (existsb _ (c_free c)) eqn:E; [|reflexivity]. exfalso. apply Hnot. apply existsb_exists in E. destruct E as [x [Hx Ex]]. apply Z.eqb_eq in Ex. subst x.
+    unfold free_addrs. apply in_flat_map. exists c. split; [eapply nth_error_In; eauto|]. unfold chunk_addrs. apply in_map_iff. exists ((p - c_mem c) / sm_ns l). split; [|exact Hx].
+    destruct Hinv as (Hns & _). pose proof (Z.div_mod (p - c_mem c) (sm_ns l) ltac:(lia)) as Hdm. rewrite Hmod in Hdm. lia. }
+  rewrite Hex, andb_false_r. eexists. split; reflexivity.
+Qed.
+
+(* a pointer that is in no chunk is never accepted and the search never runs on for ever: with the pointer check it is reported
+   (or, when it is exactly the address of the cursor's chunk header, the unreachable-code handler aborts) *)
+Theorem sm_deallocate_foreign base dbl l p : SmInv l -> (forall c, In c (sm_chunks l) -> c_from (sm_ns l) c p = false) ->
+  sm_deallocate base true dbl l p = if pos_addr base l (sm_dc l) =? p then MAbort else MReported.
+Proof.
+  intros Hinv Hnone. destruct (find_node_spec base l p Hinv) as [_ F]. unfold sm_deallocate. rewrite (F Hnone).
+  destruct (pos_addr base l (sm_dc l) =? p); reflexivity.
+Qed.
+
+(* a node between two boundaries, or one that is already free, is reported and nothing changes *)
+Theorem sm_deallocate_bad_node base l p j c : SmInv l -> nth_error (sm_chunks l) j = Some c -> c_from (sm_ns l) c p = true ->
+  (forall e, In e (sm_chunks l) -> c_from (sm_ns l) e base = false) ->
+  ((p - c_mem c) mod sm_ns l <> 0 -> forall dbl, sm_deallocate base true dbl l p = MReported) /\
+  (In p (free_addrs (sm_ns l) (sm_chunks l)) -> sm_deallocate base true true l p = MReported).
+Proof.
+  intros Hinv Hj Hc Hbase. destruct (find_node_spec base l p Hinv) as [F _]. unfold sm_deallocate. rewrite (F j c Hj Hc Hbase), Hj. split.
+  - intros Hm dbl. destruct (Z.eqb_spec ((p - c_mem c) mod sm_ns l) 0); [contradiction|]. reflexivity.
+  - intros Hin. destruct (Z.eqb_spec ((p - c_mem c) mod sm_ns l) 0) as [Hm|Hm]; [|reflexivity]. cbn [negb andb].
+    assert (Hex : existsb (Z.eqb ((p - c_mem c) / sm_ns l)) (c_free c) = true); [|rewrite Hex; reflexivity].
+    unfold free_addrs in Hin. apply in_flat_map in Hin. destruct Hin as [d [Hd Ha]].
+    apply In_nth_error in Hd. destruct Hd as [i Hi].
+    assert (Hfd : c_from (sm_ns l) d p = true).
+    { pose proof Hinv as (Hns & Hok & _). rewrite Forall_forall in Hok. pose proof (chunk_addrs_range _ d p Hns (Hok d ltac:(eapply nth_error_In; eauto)) Ha) as [R1 R2].
+      unfold c_from, c_end in *. apply andb_true_intro. split; [apply Z.leb_le; lia|apply Z.ltb_lt; lia]. }
+    assert (E : S i = S j) by (eapply from_pos_unique; eauto; unfold from_pos; rewrite Hi; exact Hfd). inversion E; subst i. rewrite Hj in Hi. inversion Hi; subst d.
+    unfold chunk_addrs in Ha. apply in_map_iff in Ha. destruct Ha as [x [Ex Hx]]. apply existsb_exists. exists x. split; [exact Hx|]. apply Z.eqb_eq.
+    destruct Hinv as (Hns & _). subst p. replace (c_mem c + x * sm_ns l - c_mem c) with (x * sm_ns l) by ring. rewrite Z.div_mul by lia. reflexivity.
 Qed.
